@@ -36,7 +36,8 @@ type Addr struct {
 	comp string
 	kind byte   // 'f' field of object ref, 'e' slice/array element, 'c' cell, 'g' global scalar
 	ref  string // object ref / array id / cell ref
-	idx  string // element index (kind 'e')
+	idx  string // element index relative to off (kind 'e')
+	off  string // slice offset (kind 'e')
 	top  Sort   // sort of the value stored directly in the component
 	topT types.Type
 	path []pathSel
@@ -74,6 +75,7 @@ type VC struct {
 	lines    []string
 	obls     []*Obligation
 	compSort map[string]Sort
+	compType map[string]types.Type // Go type of the values stored in the component
 	nver     int
 	nfresh   int
 	vals     map[ssa.Value]Term
@@ -103,11 +105,12 @@ type VC struct {
 	curPos   token.Pos
 	mode     string // "full" or "safety"
 	defers   []*ssa.Defer
+	pendingWf [][2]string
 }
 
 func newVC(p *Program, fn *ssa.Function) *VC {
 	vc := &VC{prog: p, u: newUniverse(p), fn: fn, key: p.keyOf[fn], contract: p.contractFor(fn),
-		compSort: map[string]Sort{}, vals: map[ssa.Value]Term{}, tuples: map[ssa.Value][]Term{},
+		compSort: map[string]Sort{}, compType: map[string]types.Type{}, vals: map[ssa.Value]Term{}, tuples: map[ssa.Value][]Term{},
 		addrs: map[ssa.Value]*Addr{}, closures: map[ssa.Value]*ssa.MakeClosure{},
 		reach: map[*ssa.BasicBlock]string{}, heapOut: map[*ssa.BasicBlock]*Heap{}, heapIn: map[*ssa.BasicBlock]*Heap{},
 		edge: map[[2]*ssa.BasicBlock]string{}, loopHdr: map[*ssa.BasicBlock]int{}, loopBody: map[*ssa.BasicBlock]map[*ssa.BasicBlock]bool{},
@@ -176,7 +179,82 @@ func (vc *VC) get(h *Heap, comp string) string {
 	if comp == "Msize" {
 		vc.u.axiom("msize.nonneg."+name, fmt.Sprintf("(assert (forall ((m Int)) (! (>= (select %s m) 0) :pattern ((select %s m)))))", name, name))
 	}
+	if comp != "$alloc" {
+		ea := fmt.Sprintf("$alloc@e%d", h.epoch)
+		vc.u.declare(ea, fmt.Sprintf("(declare-const %s Int)", ea))
+		vc.u.axiom("alloc.nonneg."+ea, fmt.Sprintf("(assert (>= %s 0))", ea))
+		if ax := vc.wfAxiom(comp, name, ea); ax != "" {
+			vc.u.axiom("wf."+name, ax)
+		}
+	}
 	return name
+}
+
+// wfOf: the type invariant of a value of Go type t held in a heap whose allocation watermark is alloc
+func (vc *VC) wfOf(v string, t types.Type, alloc string, depth int) string {
+	if t == nil || depth > 3 {
+		return "true"
+	}
+	switch tt := t.Underlying().(type) {
+	case *types.Slice:
+		return and(app("<=", app("s.arr", v), alloc), app(">=", app("s.arr", v), "0"), app(">=", app("s.off", v), "0"), app(">=", app("s.len", v), "0"),
+			app(">=", app("s.cap", v), app("s.len", v)), app("<=", app("s.cap", v), "9223372036854775807"))
+	case *types.Interface:
+		return and(app(">=", app("i.tag", v), "0"), app(">=", app("i.val", v), "0"), app("<=", app("i.val", v), alloc))
+	case *types.Pointer, *types.Map, *types.Chan, *types.Signature:
+		return and(app(">=", v, "0"), app("<=", v, alloc))
+	case *types.Basic:
+		if lo, hi, ok := intRange(t); ok {
+			return and(app("<=", lo, v), app("<=", v, hi))
+		}
+	case *types.Struct:
+		if !isModuleStruct(t) {
+			return "true"
+		}
+		s := vc.u.sortOf(t)
+		var parts []string
+		for i := 0; i < tt.NumFields(); i++ {
+			parts = append(parts, vc.wfOf(app(s+"."+tt.Field(i).Name(), v), tt.Field(i).Type(), alloc, depth+1))
+		}
+		return and(parts...)
+	}
+	return "true"
+}
+
+func (vc *VC) wfAxiom(comp, version, alloc string) string {
+	t := vc.compType[comp]
+	if t == nil {
+		return ""
+	}
+	s := vc.compSort[comp]
+	switch {
+	case strings.HasPrefix(comp, "E_"):
+		w := vc.wfOf(app("select", app("select", version, "r"), "j"), t, alloc, 0)
+		if w == "true" {
+			return ""
+		}
+		return fmt.Sprintf("(assert (forall ((r Int) (j Int)) (! %s :pattern ((select (select %s r) j)))))", w, version)
+	case strings.HasPrefix(comp, "Mv_"):
+		ks := firstSort(strings.TrimPrefix(strings.TrimPrefix(s, "(Array Int (Array "), ""))
+		w := vc.wfOf(app("select", app("select", version, "r"), "k"), t, alloc, 0)
+		if w == "true" {
+			return ""
+		}
+		return fmt.Sprintf("(assert (forall ((r Int) (k %s)) (! %s :pattern ((select (select %s r) k)))))", ks, w, version)
+	case strings.HasPrefix(comp, "G_"):
+		w := vc.wfOf(version, t, alloc, 0)
+		if w == "true" {
+			return ""
+		}
+		return fmt.Sprintf("(assert %s)", w)
+	case strings.HasPrefix(s, "(Array Int "):
+		w := vc.wfOf(app("select", version, "r"), t, alloc, 0)
+		if w == "true" {
+			return ""
+		}
+		return fmt.Sprintf("(assert (forall ((r Int)) (! %s :pattern ((select %s r)))))", w, version)
+	}
+	return ""
 }
 
 func (vc *VC) set(h *Heap, comp string, term string) {
@@ -191,7 +269,20 @@ func (vc *VC) havoc(h *Heap, comp string) string {
 	if comp == "Msize" {
 		vc.emit(fmt.Sprintf("(assert (forall ((m Int)) (! (>= (select %s m) 0) :pattern ((select %s m)))))", n, n))
 	}
+	vc.pendingWf = append(vc.pendingWf, [2]string{comp, n})
 	return n
+}
+
+// flushWf emits the type-invariant axioms of freshly havocked component versions, relative to the
+// allocation watermark of heap h (which must be the state the havocked versions belong to).
+func (vc *VC) flushWf(h *Heap) {
+	al := vc.get(h, "$alloc")
+	for _, p := range vc.pendingWf {
+		if ax := vc.wfAxiom(p[0], p[1], al); ax != "" {
+			vc.emit(ax)
+		}
+	}
+	vc.pendingWf = nil
 }
 
 func (vc *VC) havocAll(h *Heap) {
@@ -199,7 +290,8 @@ func (vc *VC) havocAll(h *Heap) {
 	vc.nver++
 	h.m = map[string]string{}
 	h.epoch = 1000 + vc.nver
-	n := vc.fresh("$alloc", SInt)
+	n := fmt.Sprintf("$alloc@e%d", h.epoch)
+	vc.u.declare(n, fmt.Sprintf("(declare-const %s Int)", n))
 	vc.emit(fmt.Sprintf("(assert (>= %s %s))", n, alloc))
 	h.m["$alloc"] = n
 }
@@ -219,30 +311,34 @@ func (vc *VC) fieldCompOf(structT types.Type, idx int) (comp string, fsort Sort,
 	}
 	fsort = vc.u.sortOf(f.Type())
 	vc.compDecl(name, fmt.Sprintf("(Array Int %s)", fsort))
+	vc.compType[name] = f.Type()
 	return name, fsort, f.Type()
 }
 
 func (vc *VC) elemComp(elem types.Type) (comp string, esort Sort) {
 	esort = vc.u.sortOf(elem)
-	comp = "E_" + sortKey(esort)
+	comp = "E_" + typeKey(elem, esort)
 	vc.compDecl(comp, fmt.Sprintf("(Array Int (Array Int %s))", esort))
+	vc.compType[comp] = elem
 	return
 }
 
 func (vc *VC) cellComp(t types.Type) (comp string, s Sort) {
 	s = vc.u.sortOf(t)
-	comp = "C_" + sortKey(s)
+	comp = "C_" + typeKey(t, s)
 	vc.compDecl(comp, fmt.Sprintf("(Array Int %s)", s))
+	vc.compType[comp] = t
 	return
 }
 
 func (vc *VC) mapComps(m *types.Map) (has, val string, ks, vs Sort) {
 	ks = vc.u.sortOf(m.Key())
 	vs = vc.u.sortOf(m.Elem())
-	k := sortKey(ks) + "_" + sortKey(vs)
+	k := typeKey(m.Key(), ks) + "_" + typeKey(m.Elem(), vs)
 	has, val = "Mh_"+k, "Mv_"+k
 	vc.compDecl(has, fmt.Sprintf("(Array Int (Array %s Bool))", ks))
 	vc.compDecl(val, fmt.Sprintf("(Array Int (Array %s %s))", ks, vs))
+	vc.compType[val] = m.Elem()
 	vc.compDecl("Msize", "(Array Int Int)")
 	return
 }
@@ -271,7 +367,7 @@ func (vc *VC) loadTop(h *Heap, a *Addr) string {
 	case 'g':
 		return c
 	case 'e':
-		return app("select", app("select", c, a.ref), a.idx)
+		return app(vc.u.elt(a.top), app("select", c, a.ref), a.off, a.idx)
 	default:
 		return app("select", c, a.ref)
 	}
@@ -312,7 +408,7 @@ func (vc *VC) store(h *Heap, a *Addr, v string) {
 	case 'g':
 		vc.set(h, a.comp, nv)
 	case 'e':
-		vc.set(h, a.comp, app("store", c, a.ref, app("store", app("select", c, a.ref), a.idx, nv)))
+		vc.set(h, a.comp, app("store", c, a.ref, app("store", app("select", c, a.ref), absIdx(a.off, a.idx), nv)))
 	default:
 		vc.set(h, a.comp, app("store", c, a.ref, nv))
 	}
@@ -489,4 +585,38 @@ func (vc *VC) importSort(s Sort) {
 			vc.u.opaqueOrd = append(vc.u.opaqueOrd, tok)
 		}
 	}
+}
+
+func absIdx(off, i string) string {
+	if off == "0" {
+		return i
+	}
+	return app("+", off, i)
+}
+
+// typeKey names a component after the Go type of its values: reference-like and integer types are
+// kept apart (they share the sort Int), everything else is named by sort.
+func typeKey(t types.Type, s Sort) string {
+	if s != SInt {
+		return sortKey(s)
+	}
+	switch tt := t.Underlying().(type) {
+	case *types.Basic:
+		return sanitize(tt.Name())
+	case *types.Pointer:
+		return "P" + sanitize(shortTypeName(tt.Elem()))
+	case *types.Map:
+		return "map_" + sanitize(shortTypeName(tt.Key())) + "_" + sanitize(shortTypeName(tt.Elem()))
+	case *types.Signature:
+		return "func"
+	case *types.Chan:
+		return "chan"
+	case *types.Array:
+		return "arr"
+	}
+	return "Int"
+}
+
+func shortTypeName(t types.Type) string {
+	return types.TypeString(t, func(p *types.Package) string { return shortPkg(p.Path()) })
 }
